@@ -510,8 +510,33 @@ def r16_8(ctx):
     return r
 
 
+def r16_9(ctx):
+    r = Rule("R16.9", "the declaration pre-pass walks the whole module: none of its hooks prunes the traversal (each visits its node's children on every path)",
+             "an overridden hook that does not descend hides the declarations nested below it (in function bodies, arrow bodies, object methods)")
+    from ..cfg import calls, callee_name
+    n = 0
+    for hb in ctx.facts.hir:
+        if hb["crate"] != VISITOR_CRATE or hb.get("mac") or not re.search(r"(^|::)Visit$", hb.get("impl_trait") or ""):
+            continue
+        mb = C.mir_of(ctx, hb)
+        if mb is None:
+            continue
+        n += 1
+        r.saw(mb["path"])
+        node_ty = hb["inputs"][1] if len(hb["inputs"]) > 1 else ""
+        g = C.cfg_of(ctx, mb)
+        desc = {i for i, t in calls(mb) if callee_name(t).endswith(("visit_children_with", "::visit_with"))}
+        leaf_kind = node_ty.endswith(("ImportDecl", "ExportAll", "NamedExport"))    # nothing that could contain a declaration below these
+        ok = leaf_kind or (bool(desc) and g.must_pass(desc))
+        r.ob("%s descends into its node" % hb["name"], ok, C.mloc(hb, hb),
+             ("nothing below %s can hold a declaration" % node_ty.split("::")[-1]) if leaf_kind else
+             ("visit_children_with on every path" if ok else "a path through this hook returns without visiting the children of %s: declarations nested there are never registered" % node_ty.split("::")[-1]))
+    r.ob("hooks of the pre-pass examined", True, "-", "%d Visit hook(s)" % n)
+    return r
+
+
 def rules(ctx):
-    return [r16_1, r16_2, r16_3, r16_4, r16_5, r16_6, r16_7, r16_8]
+    return [r16_1, r16_2, r16_3, r16_4, r16_5, r16_6, r16_7, r16_8, r16_9]
 
 
 EXPLANATION = (
